@@ -106,18 +106,22 @@ Substitutes == {Sc, OddR, DataR("other", TRUE), DataR("ok", FALSE), DataR("rs", 
                 DiagR(FALSE, FALSE, FALSE, FALSE), DiagR(FALSE, FALSE, TRUE, TRUE), DiagR(TRUE, FALSE, FALSE, TRUE), DiagR(FALSE, TRUE, FALSE, TRUE),
                 DiagR(FALSE, FALSE, TRUE, FALSE), DiagR(FALSE, FALSE, FALSE, TRUE)}
 
-Resolve ==
-  /\ out # NoTx /\ bad = "none"
-  /\ LET i == out.p IN
-     \/ /\ ~sl[i].pw /\ Timeout /\ UNCHANGED <<sl, faults, users>>                                  \* nobody there
-     \/ /\ sl[i].pw /\ Fault /\ Timeout /\ UNCHANGED <<sl, users>>                                   \* request lost
-     \/ /\ sl[i].pw
-        /\ LET e == SlaveExec(i, sl[i], out) IN
-           /\ sl' = [sl EXCEPT ![i] = e.s]
-           /\ \/ /\ e.r.k # "none" /\ Receive(e.r) /\ UNCHANGED <<faults, users>>
-              \/ /\ e.r.k = "none" /\ Timeout /\ UNCHANGED <<faults, users>>
-              \/ /\ Fault /\ Timeout /\ UNCHANGED users                                             \* reply lost or corrupted
-              \/ /\ Fault /\ UNCHANGED users /\ \E r \in Substitutes : r # e.r /\ Receive(r)        \* something else arrives instead
+(* the environment's decision about the outstanding request, one named action per decision (MC_DpSched records them) *)
+Pending == out # NoTx /\ bad = "none"
+ResNobody  == /\ Pending /\ ~sl[out.p].pw /\ Timeout /\ UNCHANGED <<sl, faults, users>>                   \* nobody there
+ResLoseReq == /\ Pending /\ sl[out.p].pw /\ Fault /\ Timeout /\ UNCHANGED <<sl, users>>                   \* request lost
+ResDeliver == /\ Pending /\ sl[out.p].pw
+              /\ LET i == out.p  e == SlaveExec(i, sl[i], out) IN
+                 /\ sl' = [sl EXCEPT ![i] = e.s]
+                 /\ IF e.r.k # "none" THEN Receive(e.r) ELSE Timeout
+                 /\ UNCHANGED <<faults, users>>
+ResLoseReply == /\ Pending /\ sl[out.p].pw /\ Fault                                                     \* reply lost or corrupted
+                /\ LET i == out.p  e == SlaveExec(i, sl[i], out) IN sl' = [sl EXCEPT ![i] = e.s]
+                /\ Timeout /\ UNCHANGED users
+ResSubst(r) == /\ Pending /\ sl[out.p].pw /\ Fault                                                      \* something else arrives instead
+               /\ LET i == out.p  e == SlaveExec(i, sl[i], out) IN sl' = [sl EXCEPT ![i] = e.s] /\ r # e.r
+               /\ Receive(r) /\ UNCHANGED users
+Resolve == ResNobody \/ ResLoseReq \/ ResDeliver \/ ResLoseReply \/ (\E r \in Substitutes : ResSubst(r))
 
 PowerCycle(i) == /\ Fault /\ sl[i].pw /\ bad = "none"
                  /\ sl' = [sl EXCEPT ![i] = FreshS] /\ UNCHANGED <<m, out, users, bad, mon>>
